@@ -450,7 +450,8 @@ def desugar(F):
                     if cb_ is None or cb_.argc != (2 if act[0] == 'call' else 1):
                         good = False
                     clos[act[2]] = cb_
-            if not good or not any(_interesting(F, cb_.path) for cb_ in clos.values()):
+            # (map_err closures only build the error value: unfolding them is always safe and lets `x.map_err(..)?` thread like `x?`)
+            if not good or not (c == _R + 'map_err' or any(_interesting(F, cb_.path) for cb_ in clos.values())):
                 continue
             b.locals.append({'ty': 'isize', 'name': None, 'user': False})
             dl = {'l': len(b.locals) - 1, 'proj': []}
@@ -807,9 +808,19 @@ def thread_jumps(b, rounds=4):
         for bi in range(len(b.blocks)):
             blk = b.blocks[bi]
             t = blk['term']
-            if t['k'] not in ('goto', 'drop') or t.get('threaded') or t.get('target') is None:
+            residual = t['k'] == 'call' and ((_callee(t) or '').endswith('from_residual')) and isinstance(t.get('dst'), dict) and not t['dst']['proj']
+            if (t['k'] not in ('goto', 'drop') and not residual) or t.get('threaded') or t.get('target') is None:
                 continue
             known = {}
+            if residual:
+                # `?` hands the residual on: the value it builds is the failure variant of the return type
+                rty = b.locals[t['dst']['l']]['ty']
+                if re.match(r'^(?:std|core)::result::Result<', rty):
+                    known[t['dst']['l']] = ('variant', 1)
+                elif re.match(r'^(?:std|core)::option::Option<', rty):
+                    known[t['dst']['l']] = ('variant', 0)
+                else:
+                    continue
             # what the only way into this block has established
             ps = preds.get(bi, [])
             if len(ps) == 1 and ps[0][1] is not None:
@@ -854,13 +865,14 @@ def thread_jumps(b, rounds=4):
                     known.pop(d['l'], None)
                 else:
                     known[d['l']] = val
-            for st in blk['stmts']:
-                absorb(st)
+            if not residual:
+                for st in blk['stmts']:
+                    absorb(st)
             if not known:
                 continue
             cur, hops, resolved = t['target'], 0, None
             segs = [{'stmts': [], 'term': None}]
-            while hops < 10 and cur is not None and cur != bi:
+            while hops < 16 and cur is not None and cur != bi:
                 hops += 1
                 cb = b.blocks[cur]
                 for st in cb['stmts']:
@@ -868,6 +880,15 @@ def thread_jumps(b, rounds=4):
                     segs[-1]['stmts'].append(dict(st))
                 ct = cb['term']
                 if ct['k'] == 'goto':
+                    cur = ct['target']
+                    continue
+                if ct['k'] == 'drop' and ct.get('target') is not None:
+                    # a drop on the way is kept (copied): it is part of what runs between the assignment and the test
+                    dl_ = ct.get('p', {}).get('l') if isinstance(ct.get('p'), dict) else None
+                    if dl_ is not None:
+                        known.pop(dl_, None)
+                    segs[-1]['term'] = dict(ct, threaded=True)
+                    segs.append({'stmts': [], 'term': None})
                     cur = ct['target']
                     continue
                 if ct['k'] == 'call' and ct.get('target') is not None and ct.get('args') and not ct['dst']['proj'] and \
